@@ -204,10 +204,10 @@ void AutomationMgr::clearSlot(int slot_id)
     auto &s = slots[slot_id];
     s.active = false;
     s.used   = false;
-    if(s.learning)
+    if(s.learning > 0)
         learn_queue_len--;
     for(int i=0; i<nslots; ++i)
-        if(slots[i].learning > s.learning)
+        if(s.learning > 0 && slots[i].learning > s.learning)
             slots[i].learning--;
     s.learning = -1;
     s.midi_cc  = -1;
